@@ -70,8 +70,9 @@ pub fn gen_shape_with(r: &mut Rng, t: i32, g: &GenCfg, nonan: bool) -> AShape {
             let np = 1 + r.below(g.max_parts);
             let mut parts: Vec<Vec<APoint>> = vec![];
             let mut kinds = vec![];
-            for _ in 0..np {
-                let n = 1 + r.below(g.max_pts + 1);
+            for pi in 0..np {
+                // a ring other than the first may be empty (the constructors accept it)
+                let n = if pi > 0 && r.chance(1, 12) { 0 } else { 1 + r.below(g.max_pts + 1) };
                 let mut ring: Vec<APoint> = (0..n).map(|_| gp(r)).collect();
                 if r.chance(1, 2) && n > 1 {
                     let f = ring[0];
@@ -84,7 +85,8 @@ pub fn gen_shape_with(r: &mut Rng, t: i32, g: &GenCfg, nonan: bool) -> AShape {
         }
         "multipatch" => {
             let np = 1 + r.below(g.max_parts);
-            let parts = (0..np).map(|_| (0..1 + r.below(g.max_pts + 1)).map(|_| gp(r)).collect()).collect();
+            // a patch other than the first may be empty (the constructors accept it)
+            let parts = (0..np).map(|pi| (0..if pi > 0 && r.chance(1, 12) { 0 } else { 1 + r.below(g.max_pts + 1) }).map(|_| gp(r)).collect()).collect();
             let kinds = (0..np).map(|_| r.below(6) as i32).collect();
             AShape { t, parts, kinds, bbox: [0; 8] }
         }
